@@ -11,12 +11,12 @@
    document ops ++ pending ops, which is what a commit appends as one change.
 
    Proved in full: put / delete / increment / put_object on a map key; insert / insert_object into a
-   list or text (any encoding); the register-level effect of put / put_object / delete / increment at a
-   list or text index; the error cases.  Partial (explored by the family, not proved): the position-level
-   reading of an update at a list index through obs_seq, splice / splice_text (several ops per call),
+   list or text (any encoding); put / put_object / delete / increment at a list or text index, at the
+   register level and (C03_seq_update_spec, C03_list_*_spec) at the position level; the error cases.
+   Partial (explored by the family, not proved): splice / splice_text (several ops per call),
    preservation of wf_tx by the multi-op calls, absence of model panics (del_loop fuel).
    Marks, blocks and the GraphemeCluster encoding are outside the model. *)
-From AM Require Import Base.Prelude Base.Order Crdt.Types Crdt.Interp Crdt.Local Crdt.LocalProofs.
+From AM Require Import Base.Prelude Base.Order Crdt.Types Crdt.Interp Crdt.Local Crdt.LocalProofs Crdt.SeqProofs.
 Local Open Scope N_scope.
 
 (* ---- put on a map key: the register is exactly the new value (or, when the winning value already
@@ -127,6 +127,59 @@ Theorem C03_list_index_resolution : forall e t obj ty i a t' oid,
     update_op t obj (KSeq el) (reg_at (tx_all t) obj (KSeq el)) a = EOk (t', oid).
 Proof. exact list_update_spec. Qed.
 
+
+(* ---- put / put_object / delete / increment at an index of a list or text, position level: the visible
+   sequence changes at exactly the position p the index resolves to (the element keeps its place with its
+   new register, or disappears when the register becomes empty); other objects are unchanged ---- *)
+Theorem C03_seq_update_spec : forall e t obj ty i a t' oid,
+  wf_tx t -> lookup_type (tx_all t) obj = Some ty -> is_seq_type ty = true ->
+  local_list_op e t obj ty i a = EOk (t', oid) ->
+  let ob := observe (tx_all t) in
+  let ob' := observe (tx_all t') in
+  exists el r s wd p,
+    seek (elem_w e ty) (seq_elems (tx_all t) obj) i 0 0 = Some (el, r, s, wd, p) /\
+    nth_error (obs_seq ob obj) p = Some r /\
+    r = reg_at (tx_all t) obj (KSeq el) /\
+    update_op t obj (KSeq el) r a = EOk (t', oid) /\
+    obs_seq ob' obj =
+      firstn p (obs_seq ob obj)
+      ++ (match reg_at (tx_all t') obj (KSeq el) with [] => [] | r' => [r'] end)
+      ++ skipn (S p) (obs_seq ob obj) /\
+    (forall obj', obj' <> obj -> obj' <> next_id t -> obs_obj ob' obj' = obs_obj ob obj').
+Proof. exact seq_update_obs. Qed.
+
+Theorem C03_list_put_spec : forall e t obj i v t',
+  wf_tx t -> lookup_type (tx_all t) obj = Some OList ->
+  step e t (CPut obj (PSeq i) v) = EOk t' ->
+  let ob := observe (tx_all t) in
+  let ob' := observe (tx_all t') in
+  exists r, nth_error (obs_seq ob obj) (N.to_nat i) = Some r /\
+    obs_seq ob' obj = firstn (N.to_nat i) (obs_seq ob obj)
+      ++ [match winner r with
+          | Some (j, w) => if same_value w v then [(j, w)] else [(next_id t, scalar_vobs v)]
+          | None => [(next_id t, scalar_vobs v)]
+          end]
+      ++ skipn (S (N.to_nat i)) (obs_seq ob obj).
+Proof. exact list_put_spec. Qed.
+
+Theorem C03_list_delete_spec : forall e t obj i t',
+  wf_tx t -> lookup_type (tx_all t) obj = Some OList ->
+  step e t (CDelete obj (PSeq i)) = EOk t' ->
+  let ob := observe (tx_all t) in
+  let ob' := observe (tx_all t') in
+  obs_seq ob' obj = firstn (N.to_nat i) (obs_seq ob obj) ++ skipn (S (N.to_nat i)) (obs_seq ob obj)
+  /\ (N.to_nat i < length (obs_seq ob obj))%nat.
+Proof. exact list_delete_spec. Qed.
+
+Theorem C03_list_increment_spec : forall e t obj i z t',
+  wf_tx t -> lookup_type (tx_all t) obj = Some OList ->
+  step e t (CInc obj (PSeq i) z) = EOk t' ->
+  let ob := observe (tx_all t) in
+  let ob' := observe (tx_all t') in
+  exists r, nth_error (obs_seq ob obj) (N.to_nat i) = Some r /\ existsb is_vc r = true /\
+    obs_seq ob' obj = firstn (N.to_nat i) (obs_seq ob obj) ++ [inc_reg z r] ++ skipn (S (N.to_nat i)) (obs_seq ob obj).
+Proof. exact list_increment_spec. Qed.
+
 (* ---- invalid calls: an error, and nothing changes ---- *)
 Theorem C03_error_unchanged : forall e t c t' x,
   apply_call e t c = EOk (t', Some x) -> t' = t.
@@ -147,6 +200,8 @@ Theorem C03_wrong_key_kind_error : forall e t obj,
   (forall i nt, lookup_type (tx_all t) obj = Some OText -> step e t (CPutObj obj (PSeq i) nt) = EErr EInvalidOp) /\
   (forall i z, lookup_type (tx_all t) obj = Some OMap -> step e t (CInc obj (PSeq i) z) = EErr EInvalidOp) /\
   (forall i, lookup_type (tx_all t) obj = Some OMap -> step e t (CDelete obj (PSeq i)) = EErr EInvalidOp) /\
+  (forall k, lookup_type (tx_all t) obj = Some OList -> step e t (CDelete obj (PMap k)) = EErr EInvalidOp) /\
+  (forall k, lookup_type (tx_all t) obj = Some OText -> step e t (CDelete obj (PMap k)) = EErr EInvalidOp) /\
   (forall i d s, lookup_type (tx_all t) obj = Some OList -> step e t (CSpliceText obj i d s) = EErr EInvalidOp).
 Proof. exact wrong_key_kind_error. Qed.
 
@@ -160,6 +215,12 @@ Theorem C03_index_out_of_range_error : forall e t obj i,
   (forall v, step e t (CInsert obj (i + 1) v) = EErr EInvalidIndex) /\
   (forall nt, step e t (CInsertObj obj (i + 1) nt) = EErr EInvalidIndex).
 Proof. exact index_out_of_range_error. Qed.
+
+Theorem C03_text_delete_out_of_range_error : forall e t obj i,
+  lookup_type (tx_all t) obj = Some OText ->
+  seq_width e OText (seq_elems (tx_all t) obj) <= i ->
+  step e t (CDelete obj (PSeq i)) = EErr EInvalidIndex.
+Proof. exact text_delete_out_of_range_error. Qed.
 
 Theorem C03_increment_non_counter_error : forall e t obj k z,
   lookup_type (tx_all t) obj = Some OMap ->
@@ -221,3 +282,9 @@ Example C03_errors_nonvacuous :
   apply_call EncCP ex_tx (CInsert (2, [1]) 2 SNull) = EOk (ex_tx, Some EInvalidIndex) /\
   apply_call EncCP ex_tx (CInc root_id (PMap [108]) 1) = EOk (ex_tx, Some EMissingCounter).
 Proof. repeat split; vm_compute; reflexivity. Qed.
+
+Example C03_list_update_nonvacuous :
+  (exists t', step EncCP ex_tx (CDelete (2, [1]) (PSeq 0)) = EOk t' /\ obs_seq (observe (tx_all t')) (2, [1]) = []) /\
+  (exists t', step EncCP ex_tx (CPut (2, [1]) (PSeq 0) (SCounter 2)) = EOk t' /\
+              obs_seq (observe (tx_all t')) (2, [1]) = [[((4, [1]), VC 2)]]).
+Proof. split; eexists; split; vm_compute; reflexivity. Qed.
